@@ -37,7 +37,7 @@ var Config = struct {
 			return func() (p.DataProvider, *p.ZogIssue) {
 				err := r.ParseForm()
 				if err != nil {
-					return nil, &p.ZogIssue{Code: zconst.IssueCodeZHTTPInvalidForm, Err: err}
+					return nil, &p.ZogIssue{Code: zconst.IssueCodeZHTTPInvalidForm, Dtype: zconst.TypeStruct, Err: err}
 				}
 				return form(r.Form, &formTag), nil
 			}
